@@ -10,6 +10,7 @@ import itertools
 from dalimc.core.runner import new_result, add_violation, observe, sample
 from dalimc.core.explorer import explore
 from dalimc.env import gear102 as G
+from . import _partner as P
 
 ID = "C07"
 OPTIMISED_STRIDE = {"quick": 10, "thorough": 20}      # every k-th shard once more in an interpreter started with -O
@@ -191,8 +192,28 @@ PATTERNS = {
 }
 
 
+def _partner_commissioning():
+    from dali.sequences import Commissioning
+    units = [G.Gear(short=None, groups={i}) for i in range(2)]
+    bus = DrawBus(units, None, None, 3, script=[[9, 9], [21, 20]])
+    return Commissioning(available_addresses=[7, 8, 9]), bus, lambda: [u.short for u in units]
+
+
+def _partner_readdress():
+    from dali.sequences import Commissioning
+    units = [G.Gear(short=p, groups={i}) for i, p in enumerate((5, 5))]
+    bus = DrawBus(units, None, None, 3, script=PATTERNS["descending"])
+    return Commissioning(readdress=True), bus, lambda: [u.short for u in units]
+
+
+PARTNERS = [("Commissioning(available_addresses=[7, 8, 9]) of two new units that clash once", _partner_commissioning),
+            ("Commissioning(readdress=True) of two units", _partner_readdress)]
+PARTNERED = [("B", 2, True, False), ("B", 1, False, False), ("F", 1)]
+
+
 def shards(tier):
     out = []
+    out += P.partner_shards(PARTNERS, [0, 1, 3, 9, 40, "alt"])
     cfgs = slice_a_configs(tier)
     for i, c in enumerate(cfgs):
         n = len(c["pre"])
@@ -219,6 +240,9 @@ def shards(tier):
 
 
 def run_shard(shard):
+    if shard[0] == "partnered":
+        import sys
+        return P.run_partnered(sys.modules[__name__], shard, PARTNERS, PARTNERED)
     res = new_result()
     k = shard[0]
     if k == "A":
